@@ -198,8 +198,10 @@ class Update(Message):
                     return EOR(unreach.afi, unreach.safi)
                 if reach is not None and isinstance(reach, MPRNLRI):
                     return EOR(reach.afi, reach.safi)
-            # No MP attributes - this is IPv4 unicast EOR
-            return EOR(AFI.ipv4, SAFI.unicast)
+                # attributes were present (unknown or discarded ones) but carry no route: an empty UPDATE, not a marker
+            else:
+                # No attributes at all - this is IPv4 unicast EOR
+                return EOR(AFI.ipv4, SAFI.unicast)
 
         def log_parsed(_: object) -> str:
             # we need the import in the function as otherwise we have an cyclic loop
